@@ -109,10 +109,12 @@ def main(argv=None) -> int:
     ap.add_argument("--list", action="store_true")
     ap.add_argument("--repo", default=os.environ.get("VERIF_REPO", "/repo"))
     ap.add_argument("--json", default=None)
+    ap.add_argument("--benign", action="store_true", help="with --prop: include the benign refactorings, restricted to that property's check")
     args = ap.parse_args(argv)
     vs = load_variants()
     if args.prop:
-        vs = [v for v in vs if args.prop.upper() in v["props"]]
+        # own variants of that property; the all-property benign set only on request (--prop C12 --benign)
+        vs = [dict(v, props=[args.prop.upper()]) if v["expect"] == "quiet" else v for v in vs if args.prop.upper() in v["props"] and (v["expect"] != "quiet" or args.benign)]
     if args.id:
         vs = [v for v in vs if v["id"] == args.id]
     if args.list:
@@ -125,7 +127,10 @@ def main(argv=None) -> int:
         for r in ex.map(lambda v: run_variant(v, args.repo), vs):
             res.append(r)
             flag = r["status"]
-            print(f"{flag:5} {r['id']}: " + (r.get("detail") or "; ".join(f"{p}: rc={x['rc']} {x['first']}" for p, x in r.get("results", {}).items())))
+            rs = r.get("results", {})
+            shown = rs if len(rs) <= 3 else {p: x for p, x in rs.items() if x["rc"] != 0}
+            extra = f" ({len(rs) - len(shown)} checks exit 0)" if len(shown) != len(rs) else ""
+            print(f"{flag:5} {r['id']}: " + (r.get("detail") or "; ".join(f"{p}: rc={x['rc']} {x['first']}" for p, x in shown.items())) + extra)
     bad = [r for r in res if r["status"] == "FAIL"]
     stale = [r for r in res if r["status"] == "stale"]
     print(f"{len(res)} variants, {len(bad)} FAIL, {len(stale)} stale, {time.time() - t0:.1f}s")
